@@ -13,7 +13,7 @@ def short(x, n=160):
 
 
 def run_convs(pid, convs, rep, keys=("wire", "cbs", "closed", "rets"), monitors=(S.cb_wf, S.wire_wf), par=24,
-              extra_check=None, repeat=1, kinds=None):
+              extra_check=None, repeat=1, kinds=None, confirm=2):
     """convs: list of Conv. Returns coverage dict; registers violations on rep."""
     multi = bool(convs) and isinstance(convs[0], S.Multi)
     custom = bool(convs) and getattr(convs[0], "no_model", False)
@@ -24,34 +24,62 @@ def run_convs(pid, convs, rep, keys=("wire", "cbs", "closed", "rets"), monitors=
         exp = S.expected_multi(convs) if multi else S.expected_for(convs)
     scs = [c.scenario() for c in convs]
     results, leak, crashes = S.run_sys(scs, par=par)
-    diffs = []
-    monitor_hits = []
-    for c, e, r in zip(convs, exp, results):
-        if r.get("crash"):
-            continue
-        if custom:
-            o = {"wire": [], "cbs": [], "closed": False, "rets": []}
-        elif multi:
-            o = S.observe_multi(r, len(c.segs))
-        else:
-            o = S.observe(r)
-            o["rets"] = [(d, ("nil",) if ec == ("<nil>",) else ec) for d, ec in o["rets"]]
-        d = S.diff_proj(e, o, keys)
-        if d:
-            diffs.append((c, e, o, d, r))
-        for m in monitors:
-            for v in m(r):
-                monitor_hits.append((c, v, r))
-        if extra_check:
-            for v in extra_check(c, e, o, r):
-                monitor_hits.append((c, v, r))
-        if r.get("error"):
-            monitor_hits.append((c, "harness: " + r["error"], r))
-        for a in r.get("api") or []:
-            if a["err"] == "TIMEOUT":
-                monitor_hits.append((c, "API call %s did not return" % a["name"], r))
-        if r.get("serve_err") not in ("ErrServerClosed", ""):
-            monitor_hits.append((c, "Serve returned %s" % r.get("serve_err"), r))
+
+    def evaluate(items):
+        """items: list of (index, conv, expected, result) -> (diffs, monitor_hits) tagged with the index"""
+        diffs, hits = [], []
+        for i, c, e, r in items:
+            if r.get("crash"):
+                continue
+            if custom:
+                o = {"wire": [], "cbs": [], "closed": False, "rets": []}
+            elif multi:
+                o = S.observe_multi(r, len(c.segs))
+            else:
+                o = S.observe(r)
+                o["rets"] = [(d, ("nil",) if ec == ("<nil>",) else ec) for d, ec in o["rets"]]
+            if getattr(c, "nil_handler", False):
+                # OnEstablished returned a nil handler: UPDATEs are accepted (hold timer restarts) but nothing is called
+                e = dict(e, cbs=[x for x in e["cbs"] if x[0] != "Handler"])
+            d = S.diff_proj(e, o, keys)
+            if d:
+                diffs.append((c, e, o, d, r, i))
+            for m in monitors:
+                for v in m(r):
+                    hits.append((c, v, r, i))
+            if extra_check:
+                for v in extra_check(c, e, o, r):
+                    hits.append((c, v, r, i))
+            if r.get("error"):
+                hits.append((c, "harness: " + r["error"], r, i))
+            for a in r.get("api") or []:
+                if a["err"] == "TIMEOUT":
+                    hits.append((c, "API call %s did not return" % a["name"], r, i))
+            if r.get("serve_err") not in ("ErrServerClosed", ""):
+                hits.append((c, "Serve returned %s" % r.get("serve_err"), r, i))
+        return diffs, hits
+
+    key_of = lambda v: v.split(":")[0][:60]
+    diffs, monitor_hits = evaluate([(i, c, e, r) for i, (c, e, r) in enumerate(zip(convs, exp, results))])
+    n_unconfirmed = 0
+    if confirm and kinds is None and (diffs or monitor_hits):
+        # a real-time scenario that fails is run again on its own: scheduling noise does not repeat, a defect does.
+        # Only what fails again (same scenario, same clause) is reported; the rest is counted in the evidence.
+        suspects = sorted(set([x[-1] for x in diffs] + [x[-1] for x in monitor_hits]))[:24]
+        again_d, again_h = set(), set()
+        for _ in range(confirm):
+            rr, _, cr2 = S.run_sys([scs[i] for i in suspects], par=1)
+            d2, h2 = evaluate([(i, convs[i], exp[i], r) for i, r in zip(suspects, rr)])
+            again_d |= set((x[-1], tuple(x[3])) for x in d2)
+            again_h |= set((x[-1], key_of(x[1])) for x in h2)
+            for sc, err in cr2:
+                crashes.append((sc, err))
+        kept_d = [x for x in diffs if (x[-1], tuple(x[3])) in again_d]
+        kept_h = [x for x in monitor_hits if (x[-1], key_of(x[1])) in again_h]
+        n_unconfirmed = (len(diffs) - len(kept_d)) + (len(monitor_hits) - len(kept_h))
+        diffs, monitor_hits = kept_d, kept_h
+    diffs = [x[:5] for x in diffs]
+    monitor_hits = [x[:3] for x in monitor_hits]
     for sc, err in crashes:
         sig = {"kind": "crash", "panic": _panic_site(err)}
         rep.violation(sig, {"what": "the process running corebgp crashed", "scenario": sc, "stderr": err[-1500:]},
@@ -125,6 +153,7 @@ def run_convs(pid, convs, rep, keys=("wire", "cbs", "closed", "rets"), monitors=
         "sys_mismatches": len(diffs), "monitor_violations": len(monitor_hits), "crashes": len(crashes),
         "manager_histories_replayed": nrep, "manager_replay_divergences": len(mbad),
         "leaked_goroutines": leak.get("leaked_goroutines", 0),
+        "unconfirmed_on_rerun": n_unconfirmed,
         "scenario_streams": dict(tags), "expected_final_return_histogram": dict(outcomes), "samples": samples,
     }
 
